@@ -58,6 +58,10 @@ GRIDS = {
     # more than nine decimals, so that the rounding inside emg3d acts)
     'G2': {'shape': (4, 3, 5), 'w': ('rnd', 'rnd', 'rnd'), 'unit': 50.0,
            'origin': (-10.123456789012345, 3.3000000004, -500.7)},
+    # G1 far away from the origin with small cells (UTM-like coordinates):
+    # sources depend on positions RELATIVE to the nodes only
+    'G3': {'h': ([1, 2, 1.5], [2, 1, 1], [1, 1, 3]), 'unit': 2.0,
+           'origin': (512000.0, 6704000.25, -2000.0)},
 }
 _GRID = {}
 
@@ -66,6 +70,8 @@ ALPHA = {
     ('G1', 'quick'): ([0, 1, 1.5, 2.3, 3],)*3,
     ('G1', 'thorough'): ([0, 0.3, 1, 1.5, 2, 2.3, 3],)*3,
     ('G2', 'quick'): ([1, 1.3, 2.5, 4], [1, 1.3, 2.5, 3], [1, 1.3, 3.5, 5]),
+    ('G3', 'quick'): ([0, 1, 1.5, 2.3],)*3,
+    ('G3', 'thorough'): ([0, 0.3, 1, 1.5, 2, 2.3, 3],)*3,
     ('G2', 'thorough'): ([0, 1, 1.3, 2.5, 3, 4], [0, 1, 1.3, 2, 2.5, 3],
                          [0, 1, 1.3, 3.5, 4, 5]),
 }
@@ -407,8 +413,10 @@ def check_wire_vector(grid, pts, bare_f, viol, label):
                 continue
             shp = [1, 1, 1]
             shp[b] = -1
-            m_got = (got[a]*nd[b].reshape(shp)).sum()
-            m_exp = (seg[:, a]*mids[:, b]).sum()
+            # coordinates relative to the first node (no cancellation for
+            # grids far away from the origin)
+            m_got = (got[a]*(nd[b] - nd[b][0]).reshape(shp)).sum()
+            m_exp = (seg[:, a]*(mids[:, b] - nd[b][0])).sum()
             compared += 1
             if not abs(m_got - m_exp) <= TOL_VEC*L*ext + 1e-8*ext:
                 viol.append({
@@ -492,7 +500,16 @@ def case_dipole(c):
         return emg3d.TxElectricDipole(pts, strength=s)
 
     combos = COMBOS if c.get('nc', 9) >= 9 else rotating(c['i'], c['nc'])
-    res = run_wire_like(grid, make, pts, combos, 'dipole')
+    try:
+        res = run_wire_like(grid, make, pts, combos, 'dipole')
+    except ValueError as e:
+        if 'identical' not in str(e):
+            raise
+        return {'viol': [{
+            'cls': 'distinct-electrodes-rejected-as-identical',
+            'what': f'dipole {fmt(pts)} (length '
+                    f'{np.linalg.norm(pts[1]-pts[0]):.3f} m) refused: '
+                    f'{str(e)[:120]}'}], 'compared': 1, 'nontrivial': True}
     # conversion round trip on this electrode pair
     az, el, ln = electrodes.dipole_to_point(pts)
     cen = pts.mean(axis=0)
@@ -602,9 +619,11 @@ def case_point(c):
                 x = nd[b]
             shp = [1, 1, 1]
             shp[b] = -1
-            m_got = (got[a]*x.reshape(shp)).sum()
+            # relative to the first node (grids far from the origin)
+            m_got = (got[a]*(x - nd[b][0]).reshape(shp)).sum()
             compared += 1
-            if not abs(m_got - u[a]*p[b]) <= 1e-11*ext:
+            if not abs(m_got - u[a]*(p[b] - nd[b][0])) <= 1e-11*ext + \
+                    8*np.finfo(float).eps*abs(p[b]):
                 viol.append({
                     'cls': 'point-source-displaced',
                     'what': f'point {co}: {"xyz"[a]}-component centred at '
@@ -861,12 +880,12 @@ def tokens(alpha):
 
 def dipole_cases(tier):
     out = []
-    for g in ('G1', 'G2'):
+    for g in ('G1', 'G2', 'G3'):
         pts = tokens(ALPHA[(g, tier)])
         for a in pts:
             for b in pts:
                 if a != b:
-                    nc = (3 if g == 'G1' else 4) if tier == 'quick' else 9
+                    nc = (3 if g != 'G2' else 4) if tier == 'quick' else 9
                     out.append({'g': g, 'a': a, 'b': b, 'i': len(out),
                                 'nc': nc})
     return out
@@ -881,10 +900,13 @@ def wire_cases(tier):
     out = []
     w27, w8 = tokens(W27), tokens(W8)
 
-    def add(it, nc):
+    def add(it, nc, g='G1'):
         for p in it:
-            out.append({'g': 'G1', 'p': p, 'i': len(out), 'nc': nc})
+            out.append({'g': g, 'p': p, 'i': len(out), 'nc': nc})
 
+    # wires on the grid far from the origin
+    add(paths(w8, 3), 2, 'G3')
+    add(paths(w8, 4, closed=True), 1, 'G3')
     if tier == 'quick':
         add(paths(w27, 2), 3)
         add(paths(w27, 3), 2)
@@ -904,7 +926,7 @@ def wire_cases(tier):
 
 def point_cases(tier):
     out = []
-    for g in ('G1', 'G2'):
+    for g in ('G1', 'G2', 'G3'):
         for p in tokens(ALPHA[(g, tier)]):
             for az in AZIMUTHS:
                 for el in ELEVATIONS:
